@@ -1,6 +1,7 @@
 (* C22 proofs, part 5: the slicing literal parsers of src/parsing/literal.rs (Model/Literal.v).
-   literal_no_panic_l : on valid UTF-8 outside the four recorded input classes (lit_known = 0) no
-   modelled parser panics;   literal_no_panic_refuted_l : inside each class one does. *)
+   literal_no_panic_l : on EVERY valid UTF-8 text no modelled parser panics (model of the parsers as
+   repaired by /repo adf5bcc);  literal_former_witnesses_l : the witnesses of the fixed findings
+   F-C22-1..4 now evaluate to Err / a value. *)
 From Coq Require Import ZArith List Bool Arith Lia ZifyBool.
 From TV Require Import Model.LexerKeywords Model.Lexer Model.Literal Proof.LexerBase.
 Import ListNotations.
@@ -89,10 +90,11 @@ Proof.
     replace (S k - 1)%nat with k by lia. cbn [Nat.mul] in Hn. lia.
 Qed.
 
-Lemma hex_blob_no_panic : forall l, has_non_ascii l = false -> parse_hex_blob l <> LPanic.
+Lemma hex_blob_no_panic : forall l, parse_hex_blob l <> LPanic.
 Proof.
-  intros l H. unfold parse_hex_blob.
+  intros l. unfold parse_hex_blob.
   destruct (negb (length l mod 2 =? 0)%nat) eqn:E; [discriminate|].
+  destruct (has_non_ascii l) eqn:H; [discriminate|].
   apply chunk_loop_no_panic; [lia | exact (no_non_ascii_nth l H) |].
   unfold chunks_count.
   destruct (length l) as [|n] eqn:El; [left; reflexivity|right].
@@ -102,9 +104,10 @@ Proof.
   lia.
 Qed.
 
-Lemma binary_blob_no_panic : forall l, has_non_ascii l = false -> parse_binary_blob l <> LPanic.
+Lemma binary_blob_no_panic : forall l, parse_binary_blob l <> LPanic.
 Proof.
-  intros l H. unfold parse_binary_blob. destruct l as [|x r] eqn:El; [discriminate|]. rewrite <- El in *.
+  intros l. unfold parse_binary_blob. destruct l as [|x r] eqn:El; [discriminate|]. rewrite <- El in *.
+  destruct (has_non_ascii l) eqn:H; [discriminate|].
   apply chunk_loop_no_panic; [lia | exact (no_non_ascii_nth l H) |].
   unfold chunks_count. right.
   assert (0 < length l)%nat by (rewrite El; simpl; lia).
@@ -160,6 +163,25 @@ Proof.
   rewrite H1 in H. specialize (H H0). unfold is_ascii in Ha. lia.
 Qed.
 
+Lemma infix_boundary_after : forall l pre m post i q, l = pre ++ m ++ post -> utf8_valid l = true ->
+  nth_error m i = Some q -> is_ascii q = true -> is_char_boundary m (S i) = true.
+Proof.
+  intros l pre m post i q Hl Hv Hq Ha.
+  unfold is_char_boundary. change (S i =? 0)%nat with false. cbv iota.
+  assert (Hi : (i < length m)%nat) by (apply nth_error_Some; congruence).
+  destruct (nth_error m (S i)) as [c|] eqn:E.
+  - pose proof (utf8_ascii_next_aux (length l) l (le_n _) Hv (length pre + i) q) as H.
+    assert (Hsi : (S i < length m)%nat) by (apply nth_error_Some; congruence).
+    assert (H0 : nth_error l (length pre + i) = Some q).
+    { rewrite Hl. rewrite nth_error_app2 by lia. replace (length pre + i - length pre)%nat with i by lia.
+      rewrite nth_error_app1 by lia. exact Hq. }
+    assert (H1 : nth_error l (S (length pre + i)) = Some c).
+    { rewrite Hl. rewrite nth_error_app2 by lia. replace (S (length pre + i) - length pre)%nat with (S i) by lia.
+      rewrite nth_error_app1 by lia. exact E. }
+    rewrite H1 in H. specialize (H H0). unfold is_ascii in Ha. lia.
+  - apply nth_error_None in E. apply Nat.eqb_eq. unfold len. lia.
+Qed.
+
 Lemma first_is_nth : forall l b, first_is l b = true -> nth_error l 0 = Some b.
 Proof. intros [|c r] b H; simpl in H; [discriminate|]. apply Z.eqb_eq in H. subst. reflexivity. Qed.
 
@@ -185,39 +207,33 @@ Proof.
   - eapply boundary_at_byte; [exact H2|]. unfold is_ascii in Ha2. lia.
 Qed.
 
-Lemma quoted_len2 : forall s, quoted s = true -> zl_eqb s [39] = false -> zl_eqb s [34] = false ->
+Lemma quoted_len2 : forall s, quoted s = true ->
   (2 <= length s)%nat /\ exists q, (q = 39 \/ q = 34) /\ first_is s q = true /\ last_is s q = true.
 Proof.
-  intros s Hq H39 H34. unfold quoted in Hq.
-  assert (Hlen : (2 <= length s)%nat).
-  { destruct s as [|a [|b r]]; simpl; try lia.
-    - simpl in Hq. discriminate.
-    - unfold first_is, last_is in Hq. simpl in Hq. simpl in H39, H34. lia. }
-  split; [exact Hlen|].
+  intros s Hq. unfold quoted in Hq. apply andb_prop in Hq as [Hlen Hq].
+  apply Nat.leb_le in Hlen. split; [exact Hlen|].
   apply orb_prop in Hq as [Hq|Hq]; apply andb_prop in Hq as [Ha Hb].
   - exists 39. auto.
   - exists 34. auto.
 Qed.
 
-Lemma literal_parse_no_panic : forall l, utf8_valid l = true ->
-  zl_eqb (trim l) [39] = false -> zl_eqb (trim l) [34] = false -> literal_parse l <> LPanic.
+Lemma literal_parse_no_panic : forall l, utf8_valid l = true -> literal_parse l <> LPanic.
 Proof.
-  intros l Hv H39 H34. unfold literal_parse.
+  intros l Hv. unfold literal_parse.
   destruct (eq_ignore_case (trim l) [110; 117; 108; 108]); [discriminate|].
   destruct (eq_ignore_case (trim l) [116; 114; 117; 101]); [discriminate|].
   destruct (eq_ignore_case (trim l) [102; 97; 108; 115; 101]); [discriminate|].
   destruct (quoted (trim l)) eqn:Eq; [|discriminate].
-  destruct (quoted_len2 _ Eq H39 H34) as (Hlen & q & Hqq & Hf & Hla).
+  destruct (quoted_len2 _ Eq) as (Hlen & q & Hqq & Hf & Hla).
   destruct (strip_ends_ok l (trim l) q q (trim_infix l) Hv Hf Hla) as [r Hr]; try (destruct Hqq; subst; reflexivity); [exact Hlen|].
   rewrite Hr. discriminate.
 Qed.
 
-Lemma literal_parse_typed_text_no_panic : forall l, utf8_valid l = true ->
-  zl_eqb (trim l) [39] = false -> zl_eqb (trim l) [34] = false -> literal_parse_typed_text l <> LPanic.
+Lemma literal_parse_typed_text_no_panic : forall l, utf8_valid l = true -> literal_parse_typed_text l <> LPanic.
 Proof.
-  intros l Hv H39 H34. unfold literal_parse_typed_text.
+  intros l Hv. unfold literal_parse_typed_text.
   destruct (quoted (trim l)) eqn:Eq; [|discriminate].
-  destruct (quoted_len2 _ Eq H39 H34) as (Hlen & q & Hqq & Hf & Hla).
+  destruct (quoted_len2 _ Eq) as (Hlen & q & Hqq & Hf & Hla).
   destruct (strip_ends_ok l (trim l) q q (trim_infix l) Hv Hf Hla) as [r Hr]; try (destruct Hqq; subst; reflexivity); [exact Hlen|].
   rewrite Hr. discriminate.
 Qed.
@@ -246,39 +262,28 @@ Proof.
     destruct (IH j eq_refl) as [H1 H2]. simpl. split; [exact H1 | lia].
 Qed.
 
-Lemma parse_time_no_panic : forall l, has_non_ascii (after_dot (trim l)) = false -> parse_time l <> LPanic.
+Lemma parse_time_no_panic : forall l, utf8_valid l = true -> parse_time l <> LPanic.
 Proof.
-  intros l H. unfold parse_time. set (s := trim l) in *.
-  unfold after_dot in H.
+  intros l Hv. unfold parse_time. set (s := trim l) in *.
   destruct (find_byte 46 s) as [idx|] eqn:Ef.
   - destruct (find_byte_spec _ _ _ Ef) as [Hdot Hlt].
-    pose proof (no_non_ascii_nth _ H) as Hfr.
+    destruct (trim_infix l) as (pre & post & Hl). fold s in Hl.
     destruct (str_slice_ok s 0 idx) as [t Ht].
     + lia.
     + reflexivity.
     + eapply boundary_at_byte; [exact Hdot | lia].
     + destruct (str_slice_ok s (S idx) (length s)) as [f Hf].
       * lia.
-      * unfold is_char_boundary. change (S idx =? 0)%nat with false. cbv iota.
-        destruct (nth_error s (S idx)) as [c|] eqn:Ec.
-        -- assert (is_ascii c = true) as Hc.
-           { apply (Hfr 0%nat). rewrite nth_skipn. rewrite Nat.add_0_r. exact Ec. }
-           unfold is_ascii in Hc. lia.
-        -- apply nth_error_None in Ec. apply Nat.eqb_eq. unfold len. lia.
+      * eapply infix_boundary_after; eauto.
       * apply boundary_len.
       * rewrite Ht, Hf. cbn [lbind].
-        assert (Hfa : all_ascii f).
-        { unfold str_slice in Hf.
-          destruct ((S idx <=? length s)%nat && is_char_boundary s (S idx) && is_char_boundary s (length s)); [|discriminate].
-          inversion Hf; subst f. intros i b Hi.
-          destruct (Nat.lt_ge_cases i (length s - S idx)) as [Hl|Hl].
-          - rewrite nth_firstn_lt in Hi by exact Hl. exact (Hfr i b Hi).
-          - rewrite (proj2 (nth_error_None _ i)) in Hi; [discriminate|]. rewrite firstn_length. lia. }
         destruct (split_on 58 [] t) as [|h [|m [|sec [|x r]]]]; try discriminate.
         destruct (u32_parse h); [|discriminate].
         destruct (u32_parse m); [|discriminate].
         destruct (u32_parse sec); [|discriminate].
         destruct (23 <? z); [discriminate|]. destruct (59 <? z0); [discriminate|]. destruct (59 <? z1); [discriminate|].
+        destruct (has_non_ascii f) eqn:Hna; [discriminate|].
+        pose proof (no_non_ascii_nth _ Hna) as Hfa.
         set (padded := f ++ repeat 48 (6 - char_count f)).
         destruct (str_slice_ok padded 0 (Nat.min 6 (length padded))) as [tr Htr].
         -- lia.
@@ -306,48 +311,34 @@ Proof. intros [b| |]; simpl; intros H; [discriminate | discriminate | reflexivit
 Lemma of_class_panic : forall r, of_class r = LitPanic -> r = LPanic.
 Proof. intros [b| |]; simpl; intros H; [discriminate | discriminate | reflexivity]. Qed.
 
-Lemma literal_no_panic_l : forall f l, utf8_valid l = true -> lit_known f l = 0 -> run_lit f l <> Some LitPanic.
+Lemma literal_no_panic_l : forall f l, utf8_valid l = true -> run_lit f l <> Some LitPanic.
 Proof.
-  intros f l Hv Hk Hr. unfold run_lit in Hr. unfold lit_known in Hk.
-  destruct (f =? f_hex) eqn:E1.
-  { cbn [andb] in Hk. destruct (has_non_ascii l) eqn:En; [discriminate|].
-    inversion Hr as [Hp]. apply of_bytes_panic in Hp. exact (hex_blob_no_panic l En Hp). }
-  destruct (f =? f_bin) eqn:E2.
-  { cbn [andb] in Hk. destruct (has_non_ascii l) eqn:En; [discriminate|].
-    inversion Hr as [Hp]. apply of_bytes_panic in Hp. exact (binary_blob_no_panic l En Hp). }
-  destruct (f =? f_time) eqn:E3.
-  { cbn [andb] in Hk. destruct (has_non_ascii (after_dot (trim l))) eqn:En; [discriminate|].
-    inversion Hr as [Hp]. destruct (parse_time l) eqn:Et; try discriminate.
-    exact (parse_time_no_panic l En Et). }
-  cbn [andb] in Hk.
-  destruct (f =? f_lp) eqn:E4.
-  { cbn [orb andb] in Hk.
-    destruct (zl_eqb (trim l) [39]) eqn:E39; [discriminate|]. destruct (zl_eqb (trim l) [34]) eqn:E34; [discriminate|].
-    inversion Hr as [Hp]. apply of_class_panic in Hp. exact (literal_parse_no_panic l Hv E39 E34 Hp). }
-  destruct (f =? f_lpt) eqn:E5.
-  { cbn [orb andb] in Hk.
-    destruct (zl_eqb (trim l) [39]) eqn:E39; [discriminate|]. destruct (zl_eqb (trim l) [34]) eqn:E34; [discriminate|].
-    inversion Hr as [Hp]. apply of_class_panic in Hp. exact (literal_parse_typed_text_no_panic l Hv E39 E34 Hp). }
-  destruct (f =? f_uuid) eqn:E6.
+  intros f l Hv Hr. unfold run_lit in Hr.
+  destruct (f =? f_hex).
+  { inversion Hr as [Hp]. apply of_bytes_panic in Hp. exact (hex_blob_no_panic l Hp). }
+  destruct (f =? f_bin).
+  { inversion Hr as [Hp]. apply of_bytes_panic in Hp. exact (binary_blob_no_panic l Hp). }
+  destruct (f =? f_time).
+  { inversion Hr as [Hp]. destruct (parse_time l) eqn:Et; try discriminate.
+    exact (parse_time_no_panic l Hv Et). }
+  destruct (f =? f_lp).
+  { inversion Hr as [Hp]. apply of_class_panic in Hp. exact (literal_parse_no_panic l Hv Hp). }
+  destruct (f =? f_lpt).
+  { inversion Hr as [Hp]. apply of_class_panic in Hp. exact (literal_parse_typed_text_no_panic l Hv Hp). }
+  destruct (f =? f_uuid).
   { inversion Hr as [Hp]. apply of_bytes_panic in Hp. exact (parse_uuid_no_panic l Hp). }
-  destruct (f =? f_vector) eqn:E7.
+  destruct (f =? f_vector).
   { inversion Hr as [Hp]. apply of_class_panic in Hp. exact (parse_vector_no_panic l Hv Hp). }
   discriminate.
 Qed.
 
-(* the hypothesis lit_known = 0 cannot be dropped: in each recorded class a valid UTF-8 text panics
-   ("aéa", "0000000é", "12:00:00.12345é", "'") *)
-Lemma literal_no_panic_refuted_l :
-  (exists l, utf8_valid l = true /\ lit_known f_hex l = 1 /\ run_lit f_hex l = Some LitPanic) /\
-  (exists l, utf8_valid l = true /\ lit_known f_bin l = 2 /\ run_lit f_bin l = Some LitPanic) /\
-  (exists l, utf8_valid l = true /\ lit_known f_time l = 3 /\ run_lit f_time l = Some LitPanic) /\
-  (exists l, utf8_valid l = true /\ lit_known f_lp l = 4 /\ run_lit f_lp l = Some LitPanic) /\
-  (exists l, utf8_valid l = true /\ lit_known f_lpt l = 4 /\ run_lit f_lpt l = Some LitPanic).
-Proof.
-  repeat split.
-  - exists [97; 195; 169; 97]. vm_compute. auto.
-  - exists [48; 48; 48; 48; 48; 48; 48; 195; 169]. vm_compute. auto.
-  - exists [49; 50; 58; 48; 48; 58; 48; 48; 46; 49; 50; 51; 52; 53; 195; 169]. vm_compute. auto.
-  - exists [39]. vm_compute. auto.
-  - exists [34]. vm_compute. auto.
-Qed.
+(* historical: the witnesses of the fixed findings F-C22-1..4 (a-e-acute-a, seven zeros and e-acute,
+   12:00:00.12345 followed by e-acute, a lone single quote, a lone double quote) panicked before
+   /repo adf5bcc; in the repaired parsers they are errors / plain text *)
+Lemma literal_former_witnesses_l :
+  run_lit f_hex [97; 195; 169; 97] = Some LitErr /\
+  run_lit f_bin [48; 48; 48; 48; 48; 48; 48; 195; 169] = Some LitErr /\
+  run_lit f_time [49; 50; 58; 48; 48; 58; 48; 48; 46; 49; 50; 51; 52; 53; 195; 169] = Some LitErr /\
+  run_lit f_lp [39] = Some (LitClass COther) /\
+  run_lit f_lpt [34] = Some (LitClass (CText [34])).
+Proof. vm_compute. repeat split; reflexivity. Qed.
